@@ -47,13 +47,18 @@ pub fn deltas(i: usize) -> Sc {
 pub fn enumerate_devs<G: AffineRepr>(prog: &Program, honest: &crate::interp::cur::ProveOut<G>) -> Vec<Dev> {
     let mut v = vec![];
     let mut di = 0usize;
-    for (k, in_closure) in prog.constrain_sites().into_iter().enumerate() {
-        v.push(Dev::Row { k, in_closure, d: deltas(di) });
-        di += 1;
-    }
     let sites = prog.constrain_sites();
+    // circuits with very many rows: only the positions around power-of-two block boundaries
+    let sparse = sites.len() > 64;
+    let interesting = |k: usize| !sparse || k < 3 || k + 3 >= sites.len() || [31usize, 32, 63, 64, 127, 128, 255, 256, 511, 512].iter().any(|b| k + 2 >= *b && k <= *b + 1);
+    for (k, in_closure) in sites.iter().cloned().enumerate() {
+        if interesting(k) {
+            v.push(Dev::Row { k, in_closure, d: deltas(di) });
+            di += 1;
+        }
+    }
     for k in 0..sites.len().saturating_sub(1) {
-        if sites[k] == sites[k + 1] {
+        if sites[k] == sites[k + 1] && interesting(k) {
             v.push(Dev::RowPair { k, in_closure: sites[k], d: deltas(di) });
             di += 1;
         }
@@ -247,6 +252,9 @@ fn cases(ctx: &Ctx, curve: &str) -> Vec<Case> {
         GenCfg { closures: 2, ..GenCfg::simple(3, 2) },
         GenCfg { m: 0, ..GenCfg::simple(2, 0) },
         GenCfg { m: 4, q: 5, ..GenCfg::simple(5, 0) },
+        // more than 512 constraint rows (row-weight blocks), few gates
+        GenCfg { q: 540, depth: 1, max_terms: 2, m: 2, ..GenCfg::simple(1, 0) },
+        GenCfg { q: 280, depth: 1, max_terms: 2, m: 1, ..GenCfg::simple(1, 1) },
     ];
     for cfg in forced {
         v.push(Case { curve: curve.into(), seed: r.u64(), cfg, only: None });
